@@ -31,4 +31,26 @@ theorem gen_all : ∀ fuel : Nat,
       | zero => unfold genMap; sp
       | succ n => unfold genMap; sp
 
+theorem gen_sp (fuel N rem : Nat) (h : 2 * N + 1 ≤ fuel) : Sp 1 N (gen fuel rem) := (gen_all fuel).1 N rem h
+macro_rules | `(tactic| sp_leaf) => `(tactic| exact (gen_sp _ _ _ (by omega)).mono (by omega))
+macro_rules | `(tactic| sp_leaf) => `(tactic| exact Sp.discard ((gen_sp _ _ _ (by omega)).mono (by omega)))
+
+theorem swallow_all : ∀ fuel : Nat,
+    (∀ N rem, 2 * N + 1 ≤ fuel → Sp 1 N (swallow fuel rem)) ∧
+    (∀ N rem n, 2 * N + 2 ≤ fuel → Sp 0 N (swallowN fuel rem n))
+  | 0 => ⟨fun _ _ h => by omega, fun _ _ _ h => by omega⟩
+  | fuel + 1 => by
+    obtain ⟨ihS, ihN⟩ := swallow_all fuel
+    refine ⟨fun N rem h => ?_, fun N rem n h => ?_⟩
+    · unfold swallow; sp
+    · cases n with
+      | zero => unfold swallowN; sp
+      | succ n => unfold swallowN; sp
+
+theorem swallow_sp (fuel N rem : Nat) (h : 2 * N + 1 ≤ fuel) : Sp 1 N (swallow fuel rem) := (swallow_all fuel).1 N rem h
+theorem swallowN_sp (fuel N rem n : Nat) (h : 2 * N + 2 ≤ fuel) : Sp 0 N (swallowN fuel rem n) :=
+  (swallow_all fuel).2 N rem n h
+macro_rules | `(tactic| sp_leaf) => `(tactic| exact (swallow_sp _ _ _ (by omega)).mono (by omega))
+macro_rules | `(tactic| sp_leaf) => `(tactic| exact (swallowN_sp _ _ _ _ (by omega)).mono (by omega))
+
 end Saltpack.Proofs.CodecP
